@@ -20,12 +20,18 @@ def _src_hash():
 
 
 class GResult:
+    budget_exceeded = None
+
+
+class AIUnavailable(Exception):
     pass
 
 
 def get(prog):
     key = prog.dir
     if key in _mem:
+        if _mem[key].budget_exceeded:
+            raise AIUnavailable(_mem[key].budget_exceeded)
         return _mem[key]
     # the result depends only on the facts of oq3_parser and on the analyser sources
     h = hashlib.sha256()
@@ -35,17 +41,39 @@ def get(prog):
     os.makedirs(cdir, exist_ok=True)
     cache = os.path.join(cdir, f"ai.{h.hexdigest()[:20]}.{_src_hash()}.pkl")
     if os.path.exists(cache):
+        r = None
         try:
             with open(cache, "rb") as f:
                 r = pickle.load(f)
+        except Exception:
+            r = None
+        if r is not None:
             r.cache_hit = True
             _mem[key] = r
+            if r.budget_exceeded:
+                raise AIUnavailable(r.budget_exceeded)
             return r
-        except Exception:
-            pass
     t0 = time.time()
     ai = grammar_ai.GrammarAI(prog)
-    rootkey = ai.run(ROOT)
+    def _run(*a_, **kw_):
+        try:
+            return ai.run(*a_, **kw_)
+        except grammar_ai.BudgetExceeded as e:
+            # the abstract interpreter did not reach a fixpoint within its wall-clock budget (contexts keep growing,
+            # typically because some path leaks a marker or never consumes): nothing that depends on it is decided
+            r = GResult()
+            r.cache_hit = False
+            r.budget_exceeded = str(e)
+            r.wall = time.time() - t0
+            _mem[key] = r
+            try:
+                with open(cache + ".tmp", "wb") as f:
+                    pickle.dump(r, f)
+                os.replace(cache + ".tmp", cache)
+            except Exception:
+                pass
+            raise AIUnavailable(r.budget_exceeded)
+    rootkey = _run(ROOT)
     # ---- statement-position dispatch probes (C16 / C04): item vs stmt per first token
     ITEM, STMT = "oq3_parser::grammar::items::item", "oq3_parser::grammar::expressions::stmt"
     probes = {}
@@ -60,7 +88,7 @@ def get(prog):
     for pr, w in probes.items():
         for fn, args in ((ITEM, (grammar_ai.PARSER, grammar_ai.B_F)), (STMT, (grammar_ai.PARSER,))):
             if fn in prog.bodies:
-                probe_keys[(fn, pr)] = ai.run(fn, win=w, args=args)
+                probe_keys[(fn, pr)] = _run(fn, win=w, args=args)
     # ---- expression-start probes (C04.1): lhs() per first token
     LHS = "oq3_parser::grammar::expressions::lhs"
     lhs_keys = {}
@@ -68,7 +96,7 @@ def get(prog):
         for kbit in grammar_ai.bits(A):
             for pref in (grammar_ai.B_F, grammar_ai.B_T):
                 restr = ("agg", "oq3_parser::grammar::expressions::Restrictions", 0, (pref,))
-                lhs_keys[(ai.kname[kbit], pref[1])] = ai.run(LHS, win=((1 << kbit), A, A, A, 0, 0), args=(grammar_ai.PARSER, restr))
+                lhs_keys[(ai.kname[kbit], pref[1])] = _run(LHS, win=((1 << kbit), A, A, A, 0, 0), args=(grammar_ai.PARSER, restr))
     # ---- list-item probes (C04.1): the expression-list flavours per first token of an item
     list_keys = {}
     for fn in ("oq3_parser::grammar::params::expression_list", "oq3_parser::grammar::params::case_value_list", "oq3_parser::grammar::params::array_literal"):
@@ -79,13 +107,13 @@ def get(prog):
                 w = (1 << ai.kdisc["L_CURLY"], (1 << kbit), A, A, 0, 0)
             else:
                 w = ((1 << kbit), A, A, A, 0, 0)
-            list_keys[(fn, ai.kname[kbit])] = ai.run(fn, win=w, args=(grammar_ai.PARSER,))
+            list_keys[(fn, ai.kname[kbit])] = _run(fn, win=w, args=(grammar_ai.PARSER,))
     # ---- block-statement probes (C16.3): `{ } k ...` in statement position: the block statement must end at its brace
     blk_keys = {}
     LC, RC = 1 << ai.kdisc["L_CURLY"], 1 << ai.kdisc["R_CURLY"]
     for kbit in grammar_ai.bits(A):
         if STMT in prog.bodies:      # (`item` is not probed: it parses the whole remaining statement list)
-            blk_keys[(STMT, ai.kname[kbit])] = ai.run(STMT, win=(LC, RC, (1 << kbit), A, 0, 0), args=(grammar_ai.PARSER,))
+            blk_keys[(STMT, ai.kname[kbit])] = _run(STMT, win=(LC, RC, (1 << kbit), A, 0, 0), args=(grammar_ai.PARSER,))
     r = GResult()
     r.cache_hit = False
     r.wall = time.time() - t0
